@@ -37,6 +37,8 @@ type Case struct {
 	Echo         bool       `json:"echo,omitempty"`
 	// CrossedNames (universe): an object type is named like the Go type bound to another object type
 	CrossedNames bool `json:"crossed_names,omitempty"`
+	// VeeIsMap (universe): the by-value type is the named map Mee, all of whose members are methods
+	VeeIsMap bool `json:"vee_is_map,omitempty"`
 	// LateJoin: memberships the schema gets only after the root has been used - "T implements I" or
 	// "U = T": the first load leaves them out, the request is resolved once (response not looked at),
 	// then the extension arrives. (If the schema without them is refused, they are there from the start.)
@@ -807,6 +809,9 @@ func NewWorld(c *Case) (*World, error) {
 			sample := newUniverseValue(c.GoType[tn], false)
 			if c.GoType[tn] == "Vee" {
 				sample = sample.Elem() // bound by value
+				if c.VeeIsMap {
+					sample = reflect.ValueOf(Mee{})
+				}
 			}
 			if err := w.Root.RegisterType(sample.Interface(), tn); err != nil {
 				return nil, fmt.Errorf("RegisterType(%s): %w", tn, err)
